@@ -589,6 +589,103 @@ def tie_com_rescale(c, rebound, exe):
         c.violation("rescale:real-particle-modified", "reb_simulation_rescale_var modified a real particle", {})
 
 
+# ============================================================================ tie: corrector schedule replayed through the exported primitives
+def tie_corrector_schedule(c, rebound, exe):
+    """reb_whfast_apply_corrector (static helper reb_whfast_corrector_Z) vs the Lean schedule `correctorPair`
+    replayed op by op through the exported primitives, with variational particles present: bit for bit."""
+    clib = rebound.clibrebound
+    P = rebound.Particle
+    cd, cu = ctypes.c_double, ctypes.c_uint
+    src = open(os.path.join(REPO, "src", "integrator_whfast.c")).read()
+    A = {int(k): float(v) for k, v in re.findall(r"reb_whfast_corrector_a_(\d+)\s*=\s*([-+0-9.eE]+)\s*;", src)}
+    B = {k: float(v) for k, v in re.findall(r"reb_whfast_corrector_b_(\d+)\s*=\s*([-+0-9.eE]+)\s*;", src)}
+    stages = {3: 1, 5: 2, 7: 3, 11: 5, 17: 8}
+    c.cov["corrector_constants_extracted"] = {"a": len(A), "b": len(B)}
+    if sorted(A) != list(range(1, 9)) or len(B) != sum(stages.values()):
+        c.corr_break("integrator_whfast.c: expected 8 corrector a-constants and 19 b-constants, found %d and %d" % (len(A), len(B)))
+        return
+    ncmp = nbad = 0
+    first = None
+    lines, metas = [], []
+    for order, n in stages.items():
+        for inv in (1.0, -1.0):
+            rng = c.rng.fork()
+            dt = rng.uniform(0.01, 0.2) * rng.choice([1, -1])
+            bs = [B["%d%d" % (order, k)] for k in range(1, n + 1)]
+            lines.append(" ".join(["corrsched", str(order), d2h(inv), d2h(dt), "8"] + [d2h(A[k]) for k in range(1, 9)] +
+                                  [str(n)] + [d2h(b) for b in bs]))
+            metas.append((order, inv, dt, rng))
+    out = run_driver(exe, lines)
+    if len(out) != len(lines):
+        c.corr_break("driver returned %d lines for %d corrector schedules" % (len(out), len(lines)))
+        return
+    for sched, (order, inv, dt, rng) in zip(out, metas):
+        nreal = rng.choice([3, 4])
+        nsets = rng.choice([1, 2])
+        seed = rng.next()
+
+        def make():
+            rr = SplitMix(seed)
+            sim = rebound.Simulation()
+            sim.add(m=1.0)
+            for i in range(1, nreal):
+                sim.add(m=rr.loguniform(1e-5, 1e-2), a=1.0 + 0.9 * i + rr.uniform(0, 0.3), e=rr.uniform(0, 0.3), inc=rr.uniform(0, 0.3),
+                        Omega=rr.uniform(0, 6), omega=rr.uniform(0, 6), f=rr.uniform(0, 6))
+            sim.integrator = "whfast"
+            sim.dt = dt
+            vs = [sim.add_variation() for _ in range(nsets)]
+            for v in vs:
+                q = v.particles
+                for i in range(nreal):
+                    for comp in CART:
+                        setattr(q[i], comp, rr.normal())
+            if clib.reb_integrator_whfast_init(ctypes.byref(sim)) != 0:
+                raise Infra("reb_integrator_whfast_init failed in corrector tie")
+            clib.reb_integrator_whfast_from_inertial(ctypes.byref(sim))
+            return sim, vs
+        simA, _ = make()
+        simB, vsB = make()
+        clib.reb_whfast_apply_corrector(ctypes.byref(simA), cd(inv), ctypes.c_int(order))
+        base = ctypes.addressof(simB._particles.contents)
+        pjb = ctypes.addressof(simB.ri_whfast._p_jh.contents)
+        PP = ctypes.POINTER(P)
+        at = lambda b_, k: ctypes.cast(b_ + k * ctypes.sizeof(P), PP)
+        for tok in sched.split(" ; "):
+            t = tok.split()
+            if t[0] == "K":
+                clib.reb_whfast_kepler_step(ctypes.byref(simB), cd(h2d(t[1])))
+            elif t[0] == "RR":
+                clib.reb_particles_transform_jacobi_to_inertial_pos(at(base, 0), at(pjb, 0), at(base, 0), cu(nreal), cu(nreal))
+            elif t[0] == "RV":
+                for v in vsB:
+                    clib.reb_particles_transform_jacobi_to_inertial_pos(at(base, v.index), at(pjb, v.index), at(base, 0), cu(nreal), cu(nreal))
+            elif t[0] == "A":
+                clib.reb_simulation_update_acceleration(ctypes.byref(simB))
+            elif t[0] == "I":
+                clib.reb_whfast_interaction_step(ctypes.byref(simB), cd(h2d(t[1])))
+            else:
+                c.corr_break("unknown op in corrector schedule: " + tok)
+                return
+        N = simA.N
+        pa, pb = simA.ri_whfast._p_jh, simB.ri_whfast._p_jh
+        for k in range(N):
+            for comp in CART:
+                for (x, y, where) in ((getattr(pa[k], comp), getattr(pb[k], comp), "p_jh"),
+                                      (getattr(simA.particles[k], comp) if k < nreal else 0.0,
+                                       getattr(simB.particles[k], comp) if k < nreal else 0.0, "particles")):
+                    ncmp += 1
+                    if d2h(x) != d2h(y):
+                        nbad += 1
+                        if first is None:
+                            first = dict(order=order, inv=inv, dt=dt, N_real=nreal, var_sets=nsets, index=k, variational=k >= nreal, component=comp,
+                                         array=where, real_apply_corrector=x, replayed_schedule=y)
+        c.count(("corrector-schedule", order, inv), nontrivial=True)
+    c.cov.setdefault("comparisons", {})["corrector_schedule_replay"] = {"values": ncmp, "not_bitwise": nbad}
+    if nbad:
+        c.corr_break("reb_whfast_apply_corrector differs from the Lean schedule replayed through the exported primitives "
+                     "(%d of %d values; first: order %d, %s particle %d)" % (nbad, ncmp, first["order"], "variational" if first["variational"] else "real", first["index"]), first)
+
+
 # ============================================================================ search: the 65 derivative constructors
 def kepler_pal_residual(h, k, lam, p, q):
     f0 = q * math.cos(p) + p * math.sin(p) - (k * math.cos(lam) + h * math.sin(lam))
@@ -790,6 +887,10 @@ class System:
         sim.integrator = integ
         if integ in ("whfast", "leapfrog"):
             sim.dt = opts.get("dt", 0.01)
+        if integ == "whfast":
+            for k in ("corrector", "corrector2", "safe_mode", "kernel", "keep_unsynchronized"):
+                if k in opts:
+                    setattr(sim.ri_whfast, k, opts[k])
         if integ == "bs":
             sim.ri_bs.eps_rel = 1e-12
             sim.ri_bs.eps_abs = 1e-12
@@ -1421,7 +1522,59 @@ def search_whfast_tangent(c, rebound):
             c.violation("whfast:accepts-variation-" + coord, "WHFast silently integrates variations in %s coordinates" % coord, {"coordinates": coord})
         except Exception as ex:
             rej[coord] = "rejected: " + str(ex)[:70]
+    for kern in ("modifiedkick", "composition", "lazy"):
+        sim = sy.build("whfast", None, {"dt": 0.01, "kernel": kern})
+        v = sim.add_variation()
+        v.particles[1].x = 1.0
+        try:
+            sim.integrate(0.1)
+            rej["kernel=" + kern] = "accepted"
+            c.violation("whfast:accepts-variation-kernel-" + kern, "WHFast silently integrates variations with kernel %s" % kern, {"kernel": kern})
+        except Exception as ex:
+            rej["kernel=" + kern] = "rejected: " + str(ex)[:70]
     c.cov["whfast_variation_coordinates"] = dict(rej, jacobi="supported (all runs above)")
+    # ---------------------------------------------------------------- (D) the WHFast option lattice that accepts variations
+    # symplectic correctors 0/3/5/7/11/17 x corrector2 0/1 x safe_mode 1/0 (integrate() synchronises before we read), default kernel,
+    # Jacobi coordinates; same-dt finite differences (Romberg), threshold 1e-7: a stale variational position inside one corrector
+    # stage shows up at 1e-6..1e-4
+    lat_worst, lat_fail, nlat, nlat_inc = {}, [], 0, 0
+    for s_ in range(3 if c.thorough else 1):
+        rng = c.rng.fork()
+        sy = gen_system(rebound, rng)
+        dtl = rng.uniform(0.03, 0.08) * (1 if s_ % 2 == 0 else -1)
+        T = (62.8 if c.thorough else 31.4) * (1 if dtl > 0 else -1)
+        allkeys = [(1, "x"), (2, "vy"), (1, "a"), (0, "x"), (2, "e"), (1, "lambda"), (2, "z"), (1, "f")]
+        for corr in (0, 3, 5, 7, 11, 17):
+            for c2 in (0, 1):
+                for sm in (1, 0):
+                    keys = allkeys if c.thorough else [allkeys[(corr + 3 * c2 + sm + k * 5) % len(allkeys)] for k in range(2)]
+                    for key in keys:
+                        sy2 = sy.with_kind(key[0], "pal") if key[1] in PAL[2:] else sy
+                        opts = {"dt": dtl, "corrector": corr, "corrector2": c2, "safe_mode": sm}
+                        try:
+                            err, unc, var, fd = shadow_case(sy2, "whfast", T, [key], s_ % 2 == 0, None, opts)
+                        except Exception as ex:
+                            err, unc, var, fd = float("inf"), 0.0, [], [repr(ex)]
+                        nlat += 1
+                        c.count(("whfast-lattice", corr, c2, sm, key), nontrivial=corr != 0 or c2 != 0 or sm == 0)
+                        if unc > 1e-7:
+                            nlat_inc += 1
+                            continue
+                        k = "corrector=%d corrector2=%d safe_mode=%d" % (corr, c2, sm)
+                        lat_worst[k] = max(lat_worst.get(k, 0.0), err)
+                        if not err <= 1e-6 + 4 * unc:
+                            lat_fail.append(dict(opts, T=T, key=list(key), G=sy2.G, m0=sy2.m0, bodies=sy2.bodies, rel_err=err, oracle_uncertainty=unc,
+                                                 variational=var[:12], finite_difference=fd[:12]))
+    c.cov["whfast_option_lattice"] = {"configurations": nlat, "inconclusive": nlat_inc, "threshold": 1e-6,
+                                      "worst_rel": {k: float("%.3g" % v) for k, v in sorted(lat_worst.items())}}
+    if lat_fail:
+        bad = max(lat_fail, key=lambda r_: r_["rel_err"])
+        c.violation("whfast-tangent:options:corrector=%d:corrector2=%d" % (bad["corrector"], bad["corrector2"]),
+                    "WHFast (corrector=%d, corrector2=%d, safe_mode=%d) first-order variation %s differs from the finite difference of the same "
+                    "WHFast configuration at the same dt by %.3g (%d of %d lattice configurations fail)" %
+                    (bad["corrector"], bad["corrector2"], bad["safe_mode"], bad["key"], bad["rel_err"], len(lat_fail), nlat), bad)
+    if nlat_inc > 0.1 * nlat:
+        c.corr_break("WHFast option lattice: finite-difference oracle inconclusive for %d of %d configurations" % (nlat_inc, nlat))
     # ---------------------------------------------------------------- (C) MEGNO with WHFast, eccentric orbits, both dt signs
     # the MEGNO time integral is a one-point rule per step (integrator_whfast.c:1237): it needs the pericentre passage resolved
     # (dt <= T_peri/16); at coarser steps MEGNO of an exact two-body orbit is far from 2 (measured below, not alarmed)
@@ -1488,6 +1641,7 @@ def run(c):
     big = 6 if c.thorough else 1
     run_phase(c, "tie-accelerations", lambda: tie_accelerations(c, rebound, exe), 120 * big)
     run_phase(c, "tie-com-rescale", lambda: tie_com_rescale(c, rebound, exe), 120 * big)
+    run_phase(c, "tie-corrector-schedule", lambda: tie_corrector_schedule(c, rebound, exe), 60 * big)
     run_phase(c, "derivatives", lambda: search_derivatives(c, rebound), 120 * big)
     run_phase(c, "shadow", lambda: search_shadow(c, rebound), 150 * (10 if c.thorough else 1))
     run_phase(c, "rescale-megno", lambda: search_rescale_megno(c, rebound), 60 * big)
